@@ -465,10 +465,18 @@ def _run_history(args):
     rng = random.Random(seed)
     h = EO.gen_history(rng, n_ops=rng.randrange(2, nmax), features=feats)
     exp = h.expected()
+    import signal
+
+    def boom(*a):
+        raise TimeoutError("no answer within 40 s (time_limit=20): a native loop over the object graph does not end")
+    signal.signal(signal.SIGALRM, boom)
+    signal.alarm(40)
     try:
         out = str(Context(time_limit=20).eval(h.js()))
     except BaseException as e:  # noqa
         out = "CRASH " + type(e).__name__ + ": " + str(e)[:200]
+    finally:
+        signal.alarm(0)
     lines = out.split("\n")
     known = False
     for i, want in enumerate(exp):
